@@ -8,7 +8,7 @@ R == T[l]
 
 TReset == /\ Ev("Reset")
           /\ conn' = {} /\ mode' = [u \in Users |-> "line"] /\ queue' = [u \in Users |-> <<>>]
-          /\ turn' = {} /\ errCycle' = FALSE
+          /\ turn' = {} /\ errCycle' = FALSE /\ owed' = [u \in Users |-> {}]
 TConn   == Ev("Connect") /\ Connect(R.u)
 TDisc   == Ev("Disconnect") /\ Disconnect(R.u)
 TMode   == Ev("Mode") /\ SetMode(R.u, R.m)
